@@ -190,9 +190,11 @@ MinExp(t) == IF t = "f32" THEN -149 ELSE -1074
    exact on the grid, *cb, +4, *cb, -cb, *(2cs-1), +cb), two products and two sums of the compositing equation,
    the division of un-premultiplication (1) - about 10 half-ulps of terms that are mostly well below `scale`.
    Calibration on the pinned tree (evidence: max_deviation_observed, in units of this tolerance) must stay
-   <= 1/8.  The absolute part (16 smallest positive values) only matters in the subnormal range. *)
+   <= 1/8.  The absolute part is tiny (2^-120, below every non-zero value the harness can produce: inputs are
+   multiples of 2^-8 or at least 2^-20, so no result underflows); it is not 2^-1070 because aligning every
+   number of an event to such an exponent makes the exact arithmetic forty times slower. *)
 RelBits(t) == Prec(t) - 4
-AbsTol(t) == DyPow2(MinExp(t) + 4)
+AbsTol(t) == DyPow2(-120)
 
 (* |x*w*d - n - k*sqrt(r)| <= 2^-RelBits * max(scale*d, |n| + k) + abs*d   for the recorded component x:
    x times the divisor w equals the model value q (w = 1: premultiplied result; w = the recorded result alpha:
